@@ -33,7 +33,8 @@ mod verif_kani_presolver {
 
     // C09 "exactly those rows that sit in a nonnegative cone ... are dropped" at the level of the cone list:
     // reduce_cones against its specification, written with plain index loops (no iterator adaptors)
-    fn check_on<const N: usize>(cones: [SupportedConeT<f64>; N]) {
+    // returns what was seen: (a nonnegative cone vanished, one shrank, another cone had a false marker, rows were dropped from nonnegative cones only)
+    fn check_on<const N: usize>(cones: [SupportedConeT<f64>; N]) -> (bool, bool, bool, bool) {
         let mut total = 0;
         let mut i = 0;
         while i < N { total += cones[i].nvars(); i += 1; }
@@ -56,6 +57,7 @@ mod verif_kani_presolver {
         let mut j = 0;            // next output cone
         let mut nkept = 0;        // markers set
         let mut only_nn_dropped = true;
+        let (mut vanished, mut shrank, mut other_false) = (false, false, false);
         let mut i = 0;
         while i < N {
             let nv = cones[i].nvars();
@@ -71,15 +73,14 @@ mod verif_kani_presolver {
                     j += 1;
                 }
                 // ... and disappears when none is kept
-                kani::cover!(cnt == 0 && nv > 0);
-                kani::cover!(cnt > 0 && cnt < nv);
+                if cnt == 0 && nv > 0 { vanished = true; }
+                if cnt > 0 && cnt < nv { shrank = true; }
             } else {
                 // every other cone passes through unchanged, whatever its markers say
                 assert!(j < out.len());
                 assert!(same(&out[j], &cones[i]));
                 j += 1;
-                if cnt < nv { only_nn_dropped = false; }
-                kani::cover!(cnt < nv);
+                if cnt < nv { only_nn_dropped = false; other_false = true; }
             }
             off += nv;
             i += 1;
@@ -90,8 +91,8 @@ mod verif_kani_presolver {
         let mut k = 0;
         while k < out.len() { sum += out[k].nvars(); k += 1; }
         if only_nn_dropped { assert!(sum == nkept); }
-        kani::cover!(only_nn_dropped && nkept < total);
         core::mem::forget(presolver); core::mem::forget(out); core::mem::forget(cones);
+        (vanished, shrank, other_false, only_nn_dropped && nkept < total)
     }
 
     // Bounds (all measured).  One list shape per harness: two checks in one harness share the heap and CBMC runs out of 60 GB.
@@ -100,25 +101,35 @@ mod verif_kani_presolver {
     // path: either of these twice before the third cone exhausts 60 GB.  Hence: every list of length 1 and 2 over the four
     // kinds, and lists of length 3 whose first two cones are of a concrete kind other than nonnegative (each such kind once in
     // each position), the third cone of any kind.  All dimensions and all markers are symbolic throughout.
+    fn covers_all(seen: (bool, bool, bool, bool)) {
+        kani::cover!(seen.0); kani::cover!(seen.1); kani::cover!(seen.2); kani::cover!(seen.3);
+    }
     #[kani::proof]
     #[kani::unwind(4)]
-    fn reduce_cones_matches_spec_len1() { check_on([any_cone()]); }
+    fn reduce_cones_matches_spec_len1() { covers_all(check_on([any_cone()])); }
     #[kani::proof]
     #[kani::unwind(4)]
-    fn reduce_cones_matches_spec_len2() { check_on([any_cone(), any_cone()]); }
+    fn reduce_cones_matches_spec_len2() { covers_all(check_on([any_cone(), any_cone()])); }
     #[kani::proof]
     #[kani::unwind(4)]
-    fn reduce_cones_matches_spec_len3_soc_zero_any() { check_on([cone_of(2), cone_of(1), any_cone()]); }
+    fn reduce_cones_matches_spec_len3_soc_zero_any() { covers_all(check_on([cone_of(2), cone_of(1), any_cone()])); }
     #[kani::proof]
     #[kani::unwind(4)]
-    fn reduce_cones_matches_spec_len3_exp_soc_any() { check_on([cone_of(3), cone_of(2), any_cone()]); }
+    fn reduce_cones_matches_spec_len3_exp_soc_any() { covers_all(check_on([cone_of(3), cone_of(2), any_cone()])); }
     #[kani::proof]
     #[kani::unwind(4)]
-    fn reduce_cones_matches_spec_len3_zero_exp_any() { check_on([cone_of(1), cone_of(3), any_cone()]); }
+    fn reduce_cones_matches_spec_len3_zero_exp_any() { covers_all(check_on([cone_of(1), cone_of(3), any_cone()])); }
+    // thorough tier (~7 min): three nonnegative cones, i.e. three conditional pushes
     #[kani::proof]
     #[kani::unwind(4)]
-    fn reduce_cones_dev3() { check_on([cone_of(0), cone_of(2), cone_of(0)]); }
+    fn reduce_cones_matches_spec_len3_nn_nn_nn() {
+        let seen = check_on([cone_of(0), cone_of(0), cone_of(0)]);
+        kani::cover!(seen.0 && seen.1); kani::cover!(seen.3);
+    }
     #[kani::proof]
     #[kani::unwind(4)]
-    fn reduce_cones_dev4() { check_on([cone_of(0), cone_of(0), cone_of(0)]); }
+    fn reduce_cones_dev_nn_soc_nn() {
+        let seen = check_on([cone_of(0), cone_of(2), cone_of(0)]);
+        kani::cover!(seen.0 && seen.1); kani::cover!(seen.3);
+    }
 }
